@@ -237,14 +237,15 @@ def aggregated (a : Agg) (sel : List (Series × List (Nat × Nat))) : Option (Li
 /-! ### input classes in which the engine deviates or deviated (see known_findings.txt), and latitude
 
 Classes of RECORDED deviations (`known:` lines): `absent-label-matcher` (matchers that an absent label satisfies),
-`value-has-comma`, `empty-group-key`, `name-regex-same-tagset` (aggregations only), `crash-before-tags-flush` (computed
+`value-has-comma`, `crash-before-tags-flush` (computed
 by the Oracle from the history tokens tf / cr: a series first seen after the last tags-tree flush before a crash).
 Repaired as well (c09-14 / c09-15), still computed: `agg-value-has-brace`, `binop-label-order`, `binop-trailing-comma`.
 Repaired in the second metrics round (pending c08-1, c08-2, c09-16 … c09-25), computed here, in `exprClasses` and in
 Oracle/E2EM.lean: `tag-value-not-a-string`, `escaped-metric-name`, `star-literal-matcher`, `label-values-of-all-keys`,
 `label-values-first-metric-only`, `vector-matching-label-chars`, `binop-one-sided-timestamp`, `set-operator-with-on`,
 `binop-division-by-zero`, `unary-minus`, `comparison-scalar-on-the-left`, `empty-intermediate-vector`,
-`mixed-name-vector-operand`.
+`mixed-name-vector-operand`.  Repaired by c09-26 (count over series that share one group id), still computed:
+`name-regex-same-tagset` (aggregations only).  Repaired by c09-27, still computed: `empty-group-key`.
 Classes of REPAIRED deviations (`fixed:` lines) are still computed, so that a disagreement in such a class is
 reported under its old name should the defect return: `tsid-preimage-collision`, `no-tags`,
 `json-escaped-tag-value`, `same-label-twice`, `regex-on-empty-value`, `tag-value-over-64k`, `matcher-on-missing-key`,
@@ -311,8 +312,8 @@ def classes (ds : List Series) (q : Query) (sel : List (Series × List (Nat × N
   -- that the name matchers select (with points in range).  Matchers that an absent label cannot satisfy are repaired.
   let c3 := if (ingested.filter accepted).any (fun s => selects nameMs s && s.points.any (inRange q) &&
                  q.matchers.any (fun m => m.label != "__name__" && !s.keys.contains m.label && m.acceptsEmpty)) then ["absent-label-matcher"] else []
-  -- two selected series with different metric names and equal tag sets, under an AGGREGATION (the engine then keys both by
-  -- "*{tags": count() sees one series).  For plain selectors the merge is repaired (every series keeps its metric name).
+  -- (repaired, c09-26) two selected series with different metric names and equal tag sets, under an AGGREGATION (the engine
+  -- keys both by "*{tags": count() used to see one series).  For plain selectors the merge is repaired as well (c09-7).
   -- (repaired) a matcher that an absent label CANNOT satisfy, on a label missing from such a series: it used to be skipped
   -- in segments whose tags tree holder has no tree for the key
   let c3b := if (ingested.filter accepted).any (fun s => selects nameMs s && s.points.any (inRange q) &&
